@@ -1,4 +1,4 @@
-import CardVerif.Model.Misc
+import CardModel.Model.Misc
 /-!
 # C20 — the dealing helpers always return a partition of the 52-card deck
 
